@@ -121,15 +121,16 @@ end
 
 /-- for a non-empty new sequence, `apply_diff (diff from to)` is the pipeline over command lists that
 satisfy `Spec`, all additions being `Normal` ones -/
-theorem applyDiff_spec (f t : List Key) (old : List Item) (hf : f.Nodup) (ht : t.Nodup)
+theorem applyDiff_spec (D : List Key → List Key → Diff) (hD : DiffLike D)
+    (f t : List Key) (old : List Item) (hf : f.Nodup) (ht : t.Nodup)
     (hold : old.map (·.key) = f) (hne : t ≠ []) (bs : Nat) (marker : NodeId) (w : World)
     (hw : w.storage = old.map some) :
     ∃ rem U ads, Ctx f t old rem U ads ∧ (∀ a ∈ ads, a.mode = .normal) ∧
-      U = (unpackMoves (diff f t)).1 ∧
-      applyDiff bs marker (diff f t) t w = pipeline bs marker t rem U ads ads.length w := by
+      U = (unpackMoves (D f t)).1 ∧
+      applyDiff bs marker (D f t) t w = pipeline bs marker t rem U ads ads.length w := by
   by_cases hfe : f = []
   · subst hfe
-    obtain ⟨hc, hr, hu, ha, hl⟩ := spec_of_diff_from_empty t hne
+    obtain ⟨hc, hr, hu, ha, hl⟩ := hD.from_nil t hne
     refine ⟨[], [], (List.range t.length).map fun i => { at_ := i, mode := .normal }, ?_, ?_, ?_, ?_⟩
     · refine ⟨hf, ht, hold, ⟨?_, ?_, ?_⟩⟩
       · symm; rw [List.filter_eq_nil_iff]; intro i _; simp [isRem]
@@ -150,7 +151,7 @@ theorem applyDiff_spec (f t : List Key) (old : List Item) (hf : f.Nodup) (ht : t
       subst this
       have := pipeline_append_eq_normal bs marker t t.length w (by simpa using hw)
       simpa using this
-  · obtain ⟨hc, hs, hl, hn⟩ := spec_of_diff f t hfe hne
+  · obtain ⟨hc, hs, hl, hn⟩ := hD.general f t hfe hne
     refine ⟨_, _, _, ⟨hf, ht, hold, hs⟩, hn, rfl, ?_⟩
     rw [applyDiff_eq_pipeline _ _ _ _ _ hc, hl]
 
